@@ -35,5 +35,20 @@ def run(ctx):
         M = gen.structured(rng, 6, True)
         if M and M[0]:
             lines.append(mat_line(M))
+    # large connected blocks (>= 100 rows and columns in both orientations): network matrices, a third with one or two
+    # signs corrupted; decided without the TU oracle (support kept, test = unchanged, idempotent, violators are +-2 holes)
+    big = []
+    for i in range(16 if q else 300):
+        nn, nc = 101 + rng.below(60), 100 + rng.below(80)
+        M = gen.network_matrix(rng, nn, nc)
+        if i % 3 == 1:
+            M = gen.corrupt(rng, gen.corrupt(rng, M, (-1, 1)), (-1, 1))
+        if i % 2:
+            M = gen.scale(rng, gen.permute(rng, M))
+        if i % 4 == 2:
+            M = [list(r) for r in zip(*M)]
+        big.append(mat_line(M))
+    ctx.stream("camion", big, "camion: large network blocks (>= 100 x 100)", describe=lambda c: CODES.get(c, str(c)),
+               nontrivial=lambda l, r: True)
     ctx.stream("camion", lines, "camion: exhaustive small, random, structured", describe=lambda c: CODES.get(c, str(c)),
                nontrivial=lambda l, r: int(l.split()[0]) >= 2 and int(l.split()[1]) >= 2 and sum(1 for x in l.split()[2:] if x != "0") >= 4)
